@@ -107,22 +107,36 @@ def _run_suites(prefixes, repo, tier, seed, timeout_s):
     with open(os.path.join(VERIF, 'build', 'native-last.log'), 'w') as f:
         f.write(out)
     res['wall_s'] = round(time.time() - t0, 1)
-    if re.search(r'(?m)^error(\[E\d+\])?:', out) and 'test result' not in out:
+    killed = re.search(r'\(signal: (\d+), (SIG\w+)', out)
+    if re.search(r'(?m)^error(\[E\d+\])?:', out) and 'test result' not in out and not killed:
         res['reason'] = 'native harness does not compile against this tree: ' + '; '.join(re.findall(r'(?m)^error.*$', out)[:3])
         return res
     for m in re.finditer(r'NATIVE-DONE suite=(\S+) cases=(\d+) failures=(\d+)', out):
         res['suites'].append({'suite': m.group(1), 'cases': int(m.group(2)), 'failures': int(m.group(3))})
     for m in re.finditer(r'NATIVE-FAIL suite=(\S+) contract=(\S+) input=\[(.*?)\] got=\[(.*?)\] want=\[(.*?)\]\s*$', out, re.M):
         res['fails'].append({'suite': m.group(1), 'contract': m.group(2), 'input': m.group(3), 'got': m.group(4), 'want': m.group(5)})
+    if killed:
+        # the real code took the whole test process down (abort / process::exit / stack overflow): every suite of this run
+        # that did not report DONE is unfinished; name them through `--list`
+        try:
+            lp = subprocess.run(['cargo', 'test', '--offline', '--bin', 'rusty-blockparser', '--'] + filters + ['--list'],
+                                cwd=NSRC, env=_env(seed, tier), capture_output=True, text=True, timeout=300)
+            names = [m.split('::')[-1] for m in re.findall(r'(?m)^(\S+): test$', lp.stdout)]
+        except Exception:
+            names = []
+        done0 = set(m.group(1) for m in re.finditer(r'NATIVE-DONE suite=(\S+)', out))
+        res['killed'] = {'signal': killed.group(2), 'unfinished': [n for n in names if n not in done0]}
     # tests that died without a DONE line (panic inside the real code, process::exit, abort)
     ran = set(re.findall(r'(?m)^test \S*verif_native::(\S+) \.\.\. (?:ok|FAILED)', out))
     failed = set(re.findall(r'(?m)^test \S*verif_native::(\S+) \.\.\. FAILED', out))
     done = set(s['suite'] for s in res['suites'])
     res['aborted'] = sorted(x for x in failed if x not in done)
+    if res.get('killed'):
+        res['aborted'] = sorted(set(res['aborted']) | set(res['killed']['unfinished'] or ['(process %s)' % res['killed']['signal']]))
     panics = re.findall(r"(?m)^thread '.*?verif_native::(\S+?)' .*?panicked at (.*)$", out)
     res['panics'] = [{'suite': a, 'at': b[:200]} for a, b in panics if a in res['aborted']]
     m = re.search(r'test result: .*? (\d+) passed; (\d+) failed', out)
-    if not m and rc != 0 and not res['suites']:
+    if not m and rc != 0 and not res['suites'] and not res.get('killed'):
         res['reason'] = 'native run produced no result (process aborted?): ' + out[-400:].replace('\n', ' | ')
         res['status'] = 'failed' if 'process::exit' in out else 'undecided'
         return res
